@@ -447,6 +447,19 @@ func (c *caseRun) update(sl *slot) (ok bool, log string, built bool) {
 		sl.updates++
 		e.r.Count("updates/valid/"+sl.typ+"/accepted", 1)
 		c.note("update %s (%s) height %v by %s: ok", sl.name, sl.typ, hdr.GetHeight(), signer.Name)
+		if th, ok := hdr.(*tsstypes.Header); ok {
+			// a TSS header IS the new configuration: an update that succeeded has installed all of it
+			got, _ := e.n.App.XIBCKeeper.ClientKeeper.GetClientState(e.n.Ctx(), sl.name)
+			t, _ := got.(*tsstypes.ClientState)
+			same := t != nil && t.TssAddress == th.TssAddress && bytes.Equal(t.Pubkey, th.Pubkey) && t.Threshold == th.Threshold && len(t.PartPubkeys) == len(th.PartPubkeys)
+			for i := 0; same && i < len(th.PartPubkeys); i++ {
+				same = bytes.Equal(t.PartPubkeys[i], th.PartPubkeys[i])
+			}
+			if !same {
+				c.viol("update/tss/accepted-but-the-configuration-of-the-header-was-not-installed", map[string]interface{}{"chain_name": sl.name, "header": fmt.Sprintf("%v", th), "stored": fmt.Sprintf("%v", got)})
+			}
+			e.r.Count("updates/tss/installed-configuration-compared", 1)
+		}
 		return true, "", true
 	}
 	e.r.Count("updates/valid/"+sl.typ+"/rejected", 1)
